@@ -40,7 +40,7 @@ def extract_tables(prog, chk):
         if p.kind != "return":
             chk.ob("C19.O1", "SignType::to_bytes has no panicking path", False, key="to_bytes:panic", where=loc(f_to["span"]))
             continue
-        d = known_val(norm_cons(p.cons), ("discr", ("sym", "self", ST)))
+        d = known_val(norm_cons(p.cons), norm(("discr", ("sym", "self", ST))))
         b = bytes_of(ev, p.state, p.value)
         if d is None or b is None:
             chk.unproven("C19.O1", "to_bytes:nonconst", "SignType::to_bytes returns a non-constant block on some path (%s)" % fmt_term(p.value), loc(f_to["span"]))
@@ -54,7 +54,7 @@ def extract_tables(prog, chk):
         if p.kind != "return":
             chk.ob("C19.O2", "SignType::dimensions has no panicking path", False, key="dimensions:panic", where=loc(f_dim["span"]))
             continue
-        d = known_val(norm_cons(p.cons), ("discr", ("sym", "self", ST)))
+        d = known_val(norm_cons(p.cons), norm(("discr", ("sym", "self", ST))))
         v = p.value
         if d is None or v[0] != "tuple" or any(x[0] != "int" for x in v[1]):
             chk.unproven("C19.O2", "dimensions:nonconst", "SignType::dimensions is not a constant pair on some path (%s)" % fmt_term(v), loc(f_dim["span"]))
@@ -85,7 +85,7 @@ def run_c19(chk, prog):
         chk.ob("C19.O2", "%s has a dimensions row" % v, v in dm, key="dimensions:missing:%s" % v, where=loc(f_dim["span"]))
     # ---- from_bytes table -----------------------------------------------------------------
     ev = t["from_ev"]
-    sl = ("sym", "*bytes", "[u8]")
+    sl = norm(("sym", "*bytes", "[u8]"))
     L = ("len", sl)
     B0 = norm(("proj", sl, ("index", mk_int(0, "usize"))))
     B1 = norm(("proj", sl, ("index", mk_int(1, "usize"))))
